@@ -106,6 +106,11 @@ func keywordToken(b []byte) ([]byte, int) {
 				}
 				return v, id
 			}
+			if v, _ := tokBigRule(b); len(v) > 0 && !validInt(v) && validFloat(v) {
+				// A whole number beyond the int64 range (which is how JSON
+				// may spell a large float) is a float.
+				return v, NUM_FLOAT
+			}
 			if v, id := tokIntRule(b); len(v) > 0 && !validInt(v) {
 				return v, INVALID
 			} else {
@@ -266,6 +271,7 @@ var (
 	)
 	tokFloatRule = regexpRule(`^-?\d+(?:(?:\.\d+)?[eE][+-]?|\.)\d+\b`, NUM_FLOAT)
 	tokIntRule   = regexpRule(`^-?0*\d{1,19}\b`, NUM_INT)
+	tokBigRule   = regexpRule(`^-?\d{19,}\b`, NUM_FLOAT)
 
 	// Identifiers for filetypes, stages, etc.
 	tokIdRule = regexpRule(`^_?[[:alpha:]]\w*\b`, ID)
